@@ -451,6 +451,7 @@ class ExcelModel:
     def inverse_references(self):
         dsp = self.dsp
         pred, succ, nodes = dsp.dmap.pred, dsp.dmap.succ, dsp.nodes
+        links = []  # Found first: a link adds a producer to its target.
         for c in tuple(self.cells.values()):
             if isinstance(c, Ref) and c.inputs:
                 if c.func.dsp.function_nodes:
@@ -460,15 +461,17 @@ class ExcelModel:
                 if fid and set(pred[inp]) == fid:
                     out = list(c.inputs)[0]
                     if not any(out in succ[k] for k in succ[inp]):
-                        dsp.add_function(
-                            '=%s' % inp, sh.bypass, inputs=[inp], outputs=[out]
-                        )
-                        d = nodes[inp]
-                        d['inv-data'] = {out}
-                        if 'filters' in nodes[out]:
-                            sh.get_nested_dicts(
-                                d, 'filters', default=list
-                            ).extend(nodes[out]['filters'])
+                        links.append((inp, out))
+        for inp, out in links:
+            dsp.add_function(
+                '=%s' % inp, sh.bypass, inputs=[inp], outputs=[out]
+            )
+            d = nodes[inp]
+            d['inv-data'] = {out}
+            if 'filters' in nodes[out]:
+                sh.get_nested_dicts(
+                    d, 'filters', default=list
+                ).extend(nodes[out]['filters'])
 
     def finish(self, complete=True, circular=False, assemble=True):
         if complete:
